@@ -34,7 +34,7 @@ def run(ck):
     for _ in range(1 if not ck.thorough else 12):
         npk = rng.randint(1100, 1250) if not ck.thorough else rng.randint(1300, 1800)
         cases.append(stall_case(rng, 1000, npk, rng.choice([25, 50, 120]), rng.randint(0, 50), rng.randint(1080, npk)))
-    ck.stream("stall-resume+random", cases, "C04_lts", "C04_lts", None,
+    ck.stream("stall-resume+random", cases, "C04_lts", "C04_lts", "C04_ok",
               nontrivial=lambda c: len(c[4]) > 5, sig=lambda c, e, o: "lts", timeout=1500)
     return ck.finish(rule="stall/resume scripts (one fast and one stalled consumer, key spacing 1..9, limit 2..8 set through "
                           "media.VerifSetMaxQLen, plus scripts at the real limit 1000) and random schedules with panicking consumers")
